@@ -245,13 +245,16 @@ def gen_universe(docs_expr, range_expr="WholeRange", timeout=900):
 
 
 def exhaustive(prop, docs_name, smin, smax, invariants, wd, switches=(), mutation=None, safes="{TRUE}",
-               emit=True, timeout=1500, module="MC_Build", coverage=False, doc_range="WholeRange"):
+               emit=True, timeout=1500, module="MC_Build", coverage=False, doc_range="WholeRange",
+               init="Init", next_="Next", extra_consts=None, properties=(), spec=None):
     upath, uni = gen_universe(docs_name, doc_range)
     consts = {"SafeFlags": safes, "MinStages": str(smin), "MaxStages": str(smax)}
+    if extra_consts:
+        consts.update(extra_consts)
     if mutation:
         consts["Mutation"] = json.dumps(mutation)
-    cfg = tlc.cfg_text(init="Init", next_="Next", invariants=list(invariants) + (["Emit"] if emit else []),
-                       constants=consts, switches=switches)
+    cfg = tlc.cfg_text(init=init, next_=next_, spec=spec, invariants=list(invariants) + (["Emit"] if emit else []),
+                       constants=consts, switches=switches, properties=properties)
     r = tlc.run(module, cfg, wd, workers=16, timeout=timeout, coverage=coverage, env={"UNIVERSE_FILE": upath})
     out = {"states": r["distinct"], "transitions": r["generated"], "violated": r["violated"], "wall": r["wall"],
            "universe": uni["docs"], "behaviours": [], "raw": r, "cex": None}
